@@ -528,7 +528,7 @@ def fixture_tlc_case(name, masters, dflt, font_glyphs):
     for v in vals:
         d = F(v).denominator
         lcm = lcm * d // __import__("math").gcd(lcm, d)
-    out = {"name": name, "glyphs": list(font_glyphs), "dflt": dflt + 1, "den": lcm, "masters": []}
+    out = {"name": name, "glyphs": list(font_glyphs), "dflt": dflt + 1, "den": lcm, "model": False, "masters": []}
     for m in masters:
         g = {1: {x: "" for x in font_glyphs}, 2: {x: "" for x in font_glyphs}}
         live = {1: set(), 2: set()}
@@ -717,13 +717,13 @@ def main(ctx):
         case = (doc.get("replay") or doc).get("case")
         if not case or "masters" not in case:
             raise common.ToolError("%s holds no generated case" % ctx.replay)
-        fc = {"name": "replay", "glyphs": case["glyphs"], "dflt": case["dflt"], "den": case["den"],
-              "masters": case["masters"]}
-        e = run_file_cases(ctx, [fc], "replay")["replay"]
-        cid = case_id(case)
-        c, k, ds = compile_full(ctx, case, cid, "replay")
-        common.log("replaying %s (%s)" % (cid, ds))
-        judge.judge(e, cid, c, k, generated=False, label="replayed case " + cid)
+        fc = {"name": "replay", "glyphs": case["glyphs"], "dflt": case["dflt"], "den": case["den"], "model": True,
+              "masters": [{"g1": m["g1"], "g2": m["g2"], "kern": [list(e) for e in m["kern"]]} for m in case["masters"]]}
+        e = run_file_cases(ctx, [fc], "replay")["replay"]      # oracle and transcription recomputed by TLC
+        cid = case_id(e)
+        c, k, ds = compile_full(ctx, e, cid, "replay")
+        common.log("replaying case %s (%s)" % (cid, ds))
+        judge.judge(e, cid, c, k, generated=True, label="replayed case " + cid)
         ev.traces = judge.fonts
         ev.evaluations = judge.evals
         ev.rule = "replay of one recorded case"
